@@ -13,6 +13,27 @@ fn hll_hdr(pre: u8, lgk: u8, lgarr: u8, flags: u8, state: u8, mode: u8) -> Vec<u
 fn run(name: &str) -> String {
     match name {
         // ---------------- HLL
+        "hll_list_lgarr_5_then_update" => {
+            // C14/C18: LIST image announcing a 32-slot table with 32 coupons (lg_k 12): accepted, then promoted into the fixed 32-slot set
+            let mut b = hll_hdr(2, 12, 5, 0, 32, 2 << 2);
+            for i in 0..32u32 { b.extend_from_slice(&(((i % 60 + 1) << 26) | (i * 97 + 5)).to_le_bytes()); }
+            match HllSketch::deserialize(&b) {
+                Err(e) => format!("Err({e})"),
+                Ok(mut s) => { for i in 0..2000u64 { s.update(i); } format!("Ok, estimate after 2000 updates {:.1}, image {} bytes", s.estimate(), s.serialize().len()) }
+            }
+        }
+        "hll_set_lgarr_over_then_update" => {
+            // C18: SET image of an lg_k = 10 sketch with lg_arr = 8 (> lg_k - 3): never promoted, the set doubles with the stream
+            let mut s0 = HllSketch::new(10, HllType::Hll8);
+            for i in 0..50u64 { s0.update(i); }
+            let mut b = s0.serialize();
+            let was = b[4];
+            b[4] = 8;
+            match HllSketch::deserialize(&b) {
+                Err(e) => format!("lg_arr {was} -> 8: Err({e})"),
+                Ok(mut s) => { for i in 0..20000u64 { s.update(i); } format!("lg_arr {was} -> 8: Ok, image after 20000 updates {} bytes (array mode would be 1064)", s.serialize().len()) }
+            }
+        }
         "hll_union_result_roundtrip" => {
             // C11: the result of a union (out of order, HIP accumulator carried over from the source) must survive serialize -> deserialize
             let mut out = String::new();
